@@ -231,6 +231,26 @@ pub fn cmp(args: &[&str]) -> String {
 
 /// CMPPAR <srchex> <srchex> ...: each source compiled alone (`OK <imagehex>` | `ERR`), then all of them compiled 300 times each on
 /// their own threads at the same time: compilation shares nothing between threads but the uid counter (`STABLE` | `UNSTABLE ..`)
+/// compiles a program while its thread EXITS (a thread-local destructor): a compilation is an ordinary function call and must
+/// answer Ok or Err there too (round 6: built-in registers cached in a thread_local - `LocalKey::with` panics once that key's
+/// destructor has run, and the panic of a destructor aborts the process)
+struct CompileOnExit(std::cell::RefCell<Option<(Vec<u8>, std::sync::mpsc::Sender<String>)>>);
+impl Drop for CompileOnExit {
+    fn drop(&mut self) {
+        if let Some((src, tx)) = self.0.borrow_mut().take() {
+            let r = std::panic::catch_unwind(|| match portus::lang::compile_and_serialize(&src, &[]) {
+                Ok((img, _)) => format!("OK {}", if img.is_empty() { "-".to_string() } else { hex(&img) }),
+                Err(_) => "ERR".to_string(),
+            })
+            .unwrap_or_else(|_| "PANIC".to_string());
+            let _ = tx.send(r);
+        }
+    }
+}
+thread_local! {
+    static ON_EXIT: CompileOnExit = const { CompileOnExit(std::cell::RefCell::new(None)) };
+}
+
 pub fn cmppar(args: &[&str]) -> String {
     let srcs: Option<Vec<Vec<u8>>> = args.iter().map(|h| unhex(h)).collect();
     let srcs = match srcs {
@@ -245,13 +265,18 @@ pub fn cmppar(args: &[&str]) -> String {
     }
     let alone: Vec<String> = srcs.iter().map(|s| one(s)).collect();
     let go = std::sync::Arc::new(std::sync::Barrier::new(srcs.len()));
+    let (late_tx, late_rx) = std::sync::mpsc::channel::<String>();
+    let nthreads = srcs.len();
     let hs: Vec<_> = srcs
         .into_iter()
         .zip(alone.clone())
         .enumerate()
         .map(|(i, (s, want))| {
             let go = go.clone();
+            let late = late_tx.clone();
             std::thread::spawn(move || {
+                // registered BEFORE this thread's first compilation: destroyed after whatever thread-locals the compiler creates
+                ON_EXIT.with(|e| *e.0.borrow_mut() = Some((s.clone(), late)));
                 go.wait();
                 for _ in 0..300 {
                     let got = one(&s);
@@ -269,6 +294,17 @@ pub fn cmppar(args: &[&str]) -> String {
             Ok(Some(v)) => verdict = v,
             Ok(None) => {}
             Err(_) => verdict = "UNSTABLE PANIC".to_string(),
+        }
+    }
+    drop(late_tx);
+    let late: Vec<String> = late_rx.iter().collect();
+    if verdict == "STABLE" {
+        let mut want = alone.clone();
+        let mut got = late.clone();
+        want.sort();
+        got.sort();
+        if got.len() != nthreads || got != want {
+            verdict = format!("UNSTABLE at-thread-exit {}", late.iter().find(|r| !alone.contains(r)).cloned().unwrap_or_else(|| format!("answers={}", late.len())));
         }
     }
     format!("{} || {}", alone.join(" || "), verdict)
